@@ -399,4 +399,161 @@ theorem C02_names_length (subs : List SubModel) (nIds : Nat) (llNames topNames :
       = nIds * (cutSpecial (specialBlocks subs 0) 0 llNames).length + topNames.length := by
   simp [hierNames, List.length_flatten]
 
+/-! ## names describe positions -/
+
+theorem totDim_cons (s : SubModel) (ss : List SubModel) : totDim (s :: ss) = s.nDim + totDim ss := by
+  simp [totDim]
+theorem totHier_cons (s : SubModel) (ss : List SubModel) : totHier (s :: ss) = s.nHier + totHier ss := by
+  simp [totHier]
+
+theorem cutSpecial_length {β : Type} : ∀ (subs : List SubModel) (off cur : Nat) (names : List β),
+    cur ≤ off → names.length = off + totDim subs →
+    (cutSpecial (specialBlocks subs off) cur names).length = (off - cur) + totHier subs
+  | [], off, cur, names, h, hl => by
+    simp [specialBlocks, cutSpecial, totDim, totHier] at *
+    omega
+  | s :: ss, off, cur, names, h, hl => by
+    rw [totDim_cons] at hl
+    rw [totHier_cons]
+    unfold specialBlocks
+    cases hs : s.kind.hierarchical with
+    | true =>
+      simp only [if_true, List.nil_append, SubModel.nHier, hs]
+      have := cutSpecial_length ss (off + s.nDim) cur names (by omega) (by omega)
+      rw [this]; omega
+    | false =>
+      simp only [Bool.false_eq_true, if_false, List.singleton_append, cutSpecial, SubModel.nHier, hs,
+        List.length_append, List.length_take, List.length_drop]
+      have := cutSpecial_length ss (off + s.nDim) (off + s.nDim) names (Nat.le_refl _) (by omega)
+      rw [this]
+      omega
+
+
+theorem dimOff_cons_succ (s : SubModel) (ss : List SubModel) (k : Nat) :
+    dimOff (s :: ss) (k + 1) = s.nDim + dimOff ss k := by simp [dimOff, totDim]
+theorem hierOff_cons_succ (s : SubModel) (ss : List SubModel) (k : Nat) :
+    hierOff (s :: ss) (k + 1) = s.nHier + hierOff ss k := by simp [hierOff, totHier]
+
+theorem dimOff_add_lt_totDim : ∀ (subs : List SubModel) (k d : Nat) (hk : k < subs.length),
+    d < (subs[k]).nDim → dimOff subs k + d < totDim subs
+  | [], k, _, hk, _ => by simp at hk
+  | s :: ss, 0, d, _, hd => by
+    simp only [List.getElem_cons_zero] at hd
+    simp [dimOff, totDim]; omega
+  | s :: ss, k + 1, d, hk, hd => by
+    simp only [List.getElem_cons_succ] at hd
+    have := dimOff_add_lt_totDim ss k d (by simpa using hk) hd
+    rw [dimOff_cons_succ, totDim_cons]; omega
+
+/-- before the first special block the names are untouched -/
+theorem cutSpecial_prefix {β : Type} : ∀ (blocks : List (Nat × Nat)) (cur lo j : Nat) (names : List β),
+    WF lo blocks → cur ≤ lo → lo ≤ names.length → j < lo - cur →
+    (cutSpecial blocks cur names)[j]? = names[cur + j]?
+  | [], cur, lo, j, names, _, _, _, _ => by simp [cutSpecial]
+  | (a, b) :: ss, cur, lo, j, names, hwf, hc, hlen, hj => by
+    obtain ⟨h1, h2, h3⟩ := hwf
+    unfold cutSpecial
+    have hl : j < ((names.drop cur).take (a - cur)).length := by
+      simp only [List.length_take, List.length_drop]; omega
+    rw [List.getElem?_append_left hl, List.getElem?_take_of_lt (by omega), List.getElem?_drop]
+
+/-- C02 (names describe positions): in the list of individual-level names (the individual
+    likelihood's names with the special dimensions cut out), entry `hierOff k + d` is the name of
+    dimension `dimOff k + d` — the same correspondence as `C02_shapeEta_routing` establishes for the
+    values. -/
+theorem cutSpecial_routing {β : Type} : ∀ (subs : List SubModel) (off cur k d : Nat) (names : List β)
+    (hk : k < subs.length), (subs[k]).kind.hierarchical = true → d < (subs[k]).nDim →
+    cur ≤ off → names.length = off + totDim subs →
+    (cutSpecial (specialBlocks subs off) cur names)[(off - cur) + hierOff subs k + d]?
+      = names[off + dimOff subs k + d]?
+  | [], _, _, k, _, _, hk, _, _, _, _ => by simp at hk
+  | s :: ss, off, cur, 0, d, names, _, hh, hd, hc, hlen => by
+    simp only [List.getElem_cons_zero] at hh hd
+    rw [totDim_cons] at hlen
+    unfold specialBlocks
+    simp only [hh, if_true, List.nil_append, hierOff, dimOff, totHier, totDim, List.take_zero,
+      List.map_nil, List.sum_nil, Nat.add_zero]
+    have := cutSpecial_prefix (specialBlocks ss (off + s.nDim)) cur (off + s.nDim) (off - cur + d) names
+      (wf_specialBlocks ss _ _ (Nat.le_refl _)) (by omega) (by omega) (by omega)
+    rw [this]
+    congr 1; omega
+  | s :: ss, off, cur, k + 1, d, names, hk, hh, hd, hc, hlen => by
+    simp only [List.getElem_cons_succ] at hh hd
+    have hk' : k < ss.length := by simpa using hk
+    rw [totDim_cons] at hlen
+    rw [hierOff_cons_succ, dimOff_cons_succ]
+    unfold specialBlocks
+    cases hs : s.kind.hierarchical with
+    | true =>
+      simp only [if_true, List.nil_append, SubModel.nHier, hs]
+      have ih := cutSpecial_routing ss (off + s.nDim) cur k d names hk' hh hd (by omega) (by omega)
+      have e1 : off - cur + (s.nDim + hierOff ss k) + d = off + s.nDim - cur + hierOff ss k + d := by omega
+      have e2 : off + (s.nDim + dimOff ss k) + d = off + s.nDim + dimOff ss k + d := by omega
+      rw [e1, e2]; exact ih
+    | false =>
+      simp only [Bool.false_eq_true, if_false, List.singleton_append, cutSpecial, SubModel.nHier, hs,
+        Nat.zero_add]
+      have hl : ((names.drop cur).take (off - cur)).length = off - cur := by
+        simp only [List.length_take, List.length_drop]; omega
+      rw [List.getElem?_append_right (by omega), hl]
+      have ih := cutSpecial_routing ss (off + s.nDim) (off + s.nDim) k d names hk' hh hd
+        (Nat.le_refl _) (by omega)
+      have e1 : off - cur + hierOff ss k + d - (off - cur) = off + s.nDim - (off + s.nDim) + hierOff ss k + d := by omega
+      have e2 : off + (s.nDim + dimOff ss k) + d = off + s.nDim + dimOff ss k + d := by omega
+      rw [e1, e2]; exact ih
+
+/-- C02 ("the name and ID published for position k describe exactly the quantity that position k
+    controls"), individual-level block: for individual `i < n_ids`, hierarchical sub-model `k` and
+    local dimension `d`, position `i·n_hier + hierOff k + d` of the published name list carries
+    the individual likelihood's name of dimension `dimOff k + d` — the dimension to which
+    `C02_shapeEta_routing` routes the VALUE at that position; population-level names follow. -/
+theorem C02_name_of_position (subs : List SubModel) (nIds : Nat) (llNames topNames : List String)
+    (hll : llNames.length = totDim subs) (i k d : Nat) (hi : i < nIds)
+    (hk : k < subs.length) (hh : (subs[k]).kind.hierarchical = true) (hd : d < (subs[k]).nDim) :
+    (hierNames subs nIds llNames topNames)[i * totHier subs + (hierOff subs k + d)]?
+      = llNames[dimOff subs k + d]? := by
+  have hcut := cutSpecial_length subs 0 0 llNames (Nat.le_refl 0) (by omega)
+  simp only [Nat.sub_self, Nat.zero_add] at hcut
+  have hr := cutSpecial_routing subs 0 0 k d llNames hk hh hd (Nat.le_refl 0) (by omega)
+  simp only [Nat.sub_self, Nat.zero_add] at hr
+  have hpos : hierOff subs k + d < totHier subs := by
+    -- the routed index lies inside the cut list because the right-hand side is in range
+    have hD := dimOff_add_lt_totDim subs k d hk hd
+    rcases Nat.lt_or_ge (hierOff subs k + d) (totHier subs) with h | h
+    · exact h
+    · exfalso
+      have h1 : (cutSpecial (specialBlocks subs 0) 0 llNames)[hierOff subs k + d]? = none := by
+        rw [List.getElem?_eq_none_iff]; omega
+      rw [h1] at hr
+      have h2 : llNames[dimOff subs k + d]? ≠ none := by
+        rw [Ne, List.getElem?_eq_none_iff]; omega
+      exact h2 hr.symm
+  unfold hierNames
+  generalize hrow : cutSpecial (specialBlocks subs 0) 0 llNames = row at hcut hr
+  have hflat : ∀ (n : Nat) (i c : Nat), i < n → c < row.length →
+      ((List.replicate n row).flatten)[i * row.length + c]? = row[c]? := by
+    intro n
+    induction n with
+    | zero => intro i c hi; omega
+    | succ m ih =>
+      intro i c hi hc
+      rw [List.replicate_succ, List.flatten_cons]
+      cases i with
+      | zero => simp [List.getElem?_append_left hc]
+      | succ j =>
+        rw [List.getElem?_append_right (by rw [Nat.succ_mul]; omega)]
+        have : (j + 1) * row.length + c - row.length = j * row.length + c := by
+          rw [Nat.succ_mul]; omega
+        rw [this]
+        exact ih j c (by omega) hc
+  have hin : i * totHier subs + (hierOff subs k + d) < ((List.replicate nIds row).flatten).length := by
+    simp only [List.length_flatten, List.map_replicate, List.sum_replicate_nat, hcut]
+    calc i * totHier subs + (hierOff subs k + d) < i * totHier subs + totHier subs := by omega
+      _ = (i + 1) * totHier subs := by rw [Nat.succ_mul]
+      _ ≤ nIds * totHier subs := Nat.mul_le_mul_right _ hi
+  rw [List.getElem?_append_left hin]
+  have := hflat nIds i (hierOff subs k + d) hi (by omega)
+  rw [hcut] at this
+  rw [this, hr]
+
 end ChiModel
